@@ -208,14 +208,39 @@ func TestVerif_C11_e2e(t *testing.T) {
 			urlTargets = append(urlTargets, c11URLHost(a))
 		}
 		farm.reset(urlTargets)
-		real := make([]RedirectPolicy, len(ps))
 		legacyAffected := false
-		for j, p := range ps {
-			real[j] = p.real()
+		// the client that sends: the shared one configured directly, or a member of a family
+		// grown from it by Clone / SetRedirectPolicy (the clone must enforce what it inherited,
+		// a later SetRedirectPolicy on either side must stay on that side)
+		cl, line0, scen := c, "", ""
+		if r.Intn(2) == 0 {
+			fam := c11NewFamily(c, nil)
+			fam.set(0, c11GenPols(r, []c11Auth{a0}, limit, hdrPool)) // known starting point
+			fam.grow(r, func() []c11Pol {
+				if r.Intn(2) == 0 {
+					return ps
+				}
+				return c11GenPols(r, []c11Auth{a0}, limit, hdrPool)
+			})
+			var j int
+			j, scen = fam.pick(r)
+			cl, ps = fam.clients[j], fam.want[j]
+			line0 = "c11clonechain " + fam.encOps() + " " + strconv.Itoa(j)
+			s.Count(scen)
+			scen = fam.show(j) + " ; "
+		} else {
+			real := make([]RedirectPolicy, len(ps))
+			for j, p := range ps {
+				real[j] = p.real()
+			}
+			c.SetRedirectPolicy(real...)
+			line0 = "c11chain " + c11EncPols(ps)
+			s.Count("direct")
+		}
+		for _, p := range ps {
 			s.Count("pol:" + p.kind)
 		}
-		c.SetRedirectPolicy(real...)
-		rq := c.R()
+		rq := cl.R()
 		rq.Headers = http.Header{}
 		for _, kv := range ih {
 			rq.Headers[kv[0]] = append(rq.Headers[kv[0]], kv[1])
@@ -353,13 +378,13 @@ func TestVerif_C11_e2e(t *testing.T) {
 		if stripped {
 			s.Count("cross-origin-strip")
 		}
-		human := c11ShowPols(ps) + " chain=" + strings.Join(auths, " -> ") + " => " + outcome + " received=" + strconv.Itoa(len(recs))
+		human := scen + c11ShowPols(ps) + " chain=" + strings.Join(auths, " -> ") + " => " + outcome + " received=" + strconv.Itoa(len(recs))
 		if detail != "" {
 			human += " [" + detail + "]"
 		}
-		line := "c11chain " + c11EncPols(ps) + " " + verifh.Hex(auths[0]) + " " + verifh.HexList(auths[1:]) + " " +
+		line := line0 + " " + verifh.Hex(auths[0]) + " " + verifh.HexList(auths[1:]) + " " +
 			c11EncHeaders(ih) + " " + verifh.HexList(probes)
 		s.Case(line, ans, ok, class, m > 0, human)
 	}
-	s.FinishRequire("outcome:final", "outcome:refused", "outcome:last", "cross-origin-strip", "pol:copy", "pol:samehost", "pol:samedomain", "pol:ahost", "pol:adomain", "pol:no", "pol:nil", "pol:max", "hops-scripted:0", "hops-scripted:3", "host0-normalised-by-client")
+	s.FinishRequire("direct", "family:original", "family:set-on-clone", "family:clone-of-clone-inherits", "family:clone-inherits,parent-reconfigured-later", "family:clone-inherits", "outcome:final", "outcome:refused", "outcome:last", "cross-origin-strip", "pol:copy", "pol:samehost", "pol:samedomain", "pol:ahost", "pol:adomain", "pol:no", "pol:nil", "pol:max", "hops-scripted:0", "hops-scripted:3", "host0-normalised-by-client")
 }
